@@ -14,6 +14,7 @@ RULE = ("object-API operation sequences on live handles (push, append, cons, car
         "compared with the heap / stack model; host functions of every parameter-type combination called with argument "
         "lists too short / exact / too long / of the wrong type; non-trivial = distinct operation sequences containing "
         "at least one mutation or binding operation")
+ENV = {"VERIF_STALL": "15"}
 ASSUMPTIONS = ["bool parameters of #[tulisp_fn] do not compile with the 0.4.1 proc-macro crate (TryFrom<TulispObject> for bool is Infallible): not exercised",
                "symbol-API names are disjoint from the names used by evaluated programs in the same case"]
 
